@@ -20,6 +20,8 @@ import PdModel.Proto
 * `run DIR* | OP*`                    → `ok wf=<yes|no|noshape> DIR*` | `FileExistsError` | `ELOOP`
       DIR = `F=<name>=<content>` | `L=<name>=<target>`; OP = `W=<name>=<content>` | `U=<name>` | `S=<name>=<target>`
       the answer lists the final directory sorted by name.
+* `buildtime NOW ENV OPT`              → `time <seconds>` | `exit-error` | `crash`    (System.__init__ + driver.get_system)
+      NOW: integer; ENV: `unset` | `notint` | `v=<int>` | `yearrange` | `platformrange`; OPT: `-` | `bad` | `t=<int>`
 * `exec DIR* | OP*`                   → the same without the `wf=` token (stream of the OS primitives)
 -/
 namespace Determinism
@@ -110,6 +112,25 @@ def runOp (withWf : Bool) (rest : List String) : String :=
      | .error .eloop => "ELOOP")
   | _, _ => "bad-op"
 
+def decInt (s : String) : Option Int :=
+  if s.startsWith "-" then (s.drop 1).toString.toNat?.map (fun n => - (Int.ofNat n)) else s.toNat?.map Int.ofNat
+
+def decEnv (tok : String) : Option EnvEpoch :=
+  match tok.splitOn "=" with
+  | ["unset"] => some .unset
+  | ["notint"] => some .notInt
+  | ["yearrange"] => some .yearRange
+  | ["platformrange"] => some .platformRange
+  | ["v", n] => (decInt n).map EnvEpoch.value
+  | _ => none
+
+def decOpt (tok : String) : Option OptTime :=
+  match tok.splitOn "=" with
+  | ["-"] => some .notGiven
+  | ["bad"] => some .bad
+  | ["t", n] => (decInt n).map OptTime.time
+  | _ => none
+
 def handle (args : List String) : String :=
   match args with
   | "sorted" :: ns =>
@@ -155,6 +176,14 @@ def handle (args : List String) : String :=
       let cfg : Cfg := { allSuffixes := a, sourceSuffixes := s, extSuffixes := e, introspectC := ic == "1" }
       " ".intercalate ("ok" :: (addPackage cfg (lsOf fs) (fs.length + 1) [r]).map showEv)
     | _, _, _, _, _ => "bad-op"
+  | ["buildtime", now, env, opt] =>
+    match decInt now, decEnv env, decOpt opt with
+    | some n, some e, some o =>
+      (match buildTime n e o with
+       | .time t => "time " ++ toString t
+       | .exitError => "exit-error"
+       | .crash => "crash")
+    | _, _, _ => "bad-op"
   | "run" :: rest => runOp true rest
   | "exec" :: rest => runOp false rest
   | _ => "bad-op"
